@@ -342,3 +342,11 @@ func inStrings(l []string, n int, s string) bool {
 //@   loop 0 locals (m map[string]bool)
 //@   loop 0 invariant forall k int :: 0 <= k && k < len(l) ==> __visited(m, l[k]) && m[l[k]]
 //@   loop 0 invariant forall s string :: __visited(m, s) && m[s] ==> inStrings(l, len(l), s)
+
+// A literal refused by the server (tagged NO/BAD instead of a continuation
+// request) ends that command only: flush closes the connection for write
+// failures, never for the encoder's refused-literal marker.
+//
+//@ func (ce *commandEncoder) flush()
+//@   props C12:callsite
+//@   callsite Client.closeWithError(c *Client, err error) requires !imapwire.IsLiteralCancelled(err)
